@@ -92,7 +92,7 @@ structure CaseSt where
   asts : List (String × Option (List Stmt)) := []
   st : Index := {}
   pfx : Path := []
-  scanOrder : List Path := []
+  scanOrder : List (String × String × List Path) := []     -- (map D|U, name, files in vector order)
   pfxDirs : Path := []
   rootName : String := "ws"
 
@@ -705,11 +705,14 @@ def runOp (c : CaseSt) (t : List String) : String × CaseSt :=
   | "scan" :: pats =>
     let globs := pats.map (fun h => (unhexStr? h).getD "")
     let excluded (f : Path) : Bool := globs.any (fun g => globMatch g.toList (showPath f).toList)
-    let rank (f : Path) : Nat := (c.scanOrder.findIdx? (· == f)).getD (c.scanOrder.length + 1)
+    let seqOf (mp : String) (n : String) : List Path :=
+      match c.scanOrder.find? (fun e => e.1 == mp && e.2.1 == n) with
+      | some e => e.2.2
+      | none => []
     let isEditable (js : Chars) : Bool :=
       Index.containsSub "\"editable\": true".toList js || Index.containsSub "\"editable\":true".toList js
     let excludedRel (f : Path) : Bool := globs.any (fun g => globMatch g.toList ("/".intercalate f).toList)
-    ("ok", { c with st := c.st.scanFull asciiLowerStr isEditable wsRoot c.pfxDirs excludedRel rank })
+    ("ok", { c with st := c.st.scanFull asciiLowerStr isEditable wsRoot c.pfxDirs excludedRel (seqOf "D") (seqOf "U") })
   | ["plugin", p] => ("ok", { c with st := { c.st with pluginFiles := c.st.pluginFiles ++ [pathOf p] } })
   | ["newdb"] =>
     ("ok", { c with st := { disk := c.st.disk, dirs := c.st.dirs } })
@@ -740,7 +743,14 @@ def step (c : CaseSt) (line : String) : Option String × CaseSt :=
     (none, { c with pfxDirs := d, pfx := d })
   | ["rootname", n] => (none, { c with rootName := n })
   | ["hint", "scanorder", o] =>
-    (none, { c with scanOrder := if o == "-" then [] else (o.splitOn ",").map pathOf })
+    -- `D:foo=f1,f2;U:foo=f2,f1;…`
+    (none, { c with scanOrder := if o == "-" then [] else (o.splitOn ";").filterMap (fun e =>
+      match e.splitOn "=" with
+      | [k, fs] =>
+        match k.splitOn ":" with
+        | [mp, n] => some (mp, n, (fs.splitOn ",").map pathOf)
+        | _ => none
+      | _ => none) })
   | ["mkdir", p] =>
     let d := pathOf p
     (none, { c with st := { c.st with dirs := addDirs c.st.dirs (d ++ ["x"]) } })
